@@ -24,8 +24,6 @@ import (
 
 // Re-exports.
 type (
-	Map    = sync.Map
-	Pool   = sync.Pool
 	Locker = sync.Locker
 )
 
